@@ -217,6 +217,38 @@ fn check_patterns(patterns: &[String]) -> Option<String> {
   }
 }
 
+// The unit file as it lands on disk: the real write_systemd_service writes /etc/systemd/system/totalmapper@.service (a tmpfs
+// over /etc in a private mount namespace), the file is read back and its ExecStart line decoded.  Files are written one
+// after the other into the same path, long lists before short ones, so whatever an earlier save leaves behind shows.
+const UNIT_PATH: &str = "/etc/systemd/system/totalmapper@.service";
+fn check_unit_file(out: &mut ShardOut, patterns: &[String], kind: &str) {
+  out.count("unit_files_written_and_read_back");
+  out.count(kind);
+  let refs: Vec<&str> = patterns.iter().map(|s| s.as_str()).collect();
+  let want = expected_argv(patterns);
+  let msg = match crate::udev_utils::verif::write_systemd_service(&refs) {
+    Err(e) => Some(format!("writing the unit file failed: {}", e)),
+    Ok(()) => match std::fs::read(UNIT_PATH) {
+      Err(e) => Some(format!("the unit file cannot be read back: {}", e)),
+      Ok(bytes) => match String::from_utf8(bytes) {
+        Err(_) => Some("the unit file is not UTF-8".to_string()),
+        Ok(unit) => {
+          let n_exec = unit.lines().filter(|l| l.trim_start().starts_with("ExecStart=")).count();
+          if n_exec != 1 { Some(format!("the unit file on disk has {} ExecStart lines", n_exec)) }
+          else { match decode(&unit) {
+            Decoded::Argv(got) => if got == want { None } else { Some(format!("the unit file on disk decodes to {:?}, expected {:?}", show(&got), show(&want))) },
+            Decoded::Invalid(why) => Some(format!("the unit file on disk is invalid for systemd ({}); expected argv {:?}", why, show(&want)))
+          } }
+        }
+      }
+    }
+  };
+  if let Some(m) = msg {
+    out.violation(Violation { property: "C17".to_string(), clause: "unit-file".to_string(), signature: "C17:unit-file-on-disk".to_string(), message: m,
+      replay: json!({ "engine": "systemd", "property": "C17", "patterns": patterns, "on_disk": true }) });
+  }
+}
+
 fn signature_for(patterns: &[String]) -> String {
   // the smallest explanation: a character class of the patterns that already fails in a minimal pattern of its own
   let all: String = patterns.join("");
@@ -267,12 +299,20 @@ pub fn run(opts: &Opts) -> i32 {
   }
   if !matches!(decode("[Service]\nExecStart=a 'b\n"), Decoded::Invalid(_)) { out.write(opts); return 3; }
 
-  // (1) exhaustively every Unicode scalar value except NUL as a one-character pattern (sharded by code point)
+  // the unit file on disk needs a private /etc (not under Miri or in the tiny auxiliary runs)
   let aux = opts.num("aux", 0) == 1;
+  let on_disk = if aux { false } else {
+    match crate::roundtrip_mon::private_etc() {
+      Ok(()) => { let ok = std::fs::create_dir_all("/etc/systemd/system").is_ok(); if ok { out.count("ran_in_private_namespace"); } ok },
+      Err(why) => { out.notes.insert("namespace_unavailable".to_string(), json!(why)); false }
+    }
+  };
+  // (1) exhaustively every Unicode scalar value except NUL as a one-character pattern (sharded by code point)
   let mut cp: u32 = 1 + opts.shard as u32;
   while cp <= (if aux { 0x2FF } else { 0x10FFFF }) {
     if let Some(c) = char::from_u32(cp) {
       test(&mut out, vec![c.to_string()], "single_scalar_values");
+      if on_disk && (cp < 0x3000 || (cp >> 4) % 64 == 0) { check_unit_file(&mut out, &[c.to_string()], "unit_files_with_one_scalar"); }
       out.nontrivial(hash64(&(cp, 0u8)));
       // ... and next to a character that is written as a numeric escape, on either side (what follows or precedes
       // an escape sequence must not be read as part of it)
@@ -350,6 +390,9 @@ pub fn run(opts: &Opts) -> i32 {
       pats[i] = cs.into_iter().collect();
       out.count("lists_derived_from_the_previous_one");
     }
+    // one list in 40 also goes through the real writer of the unit file and is read back from disk; the long lists always do,
+    // and the list written right after a long one is therefore shorter than what is already in the file
+    if on_disk && (n_pat >= 30 || rng.chance(1, 40)) { check_unit_file(&mut out, &pats, if n_pat >= 30 { "unit_files_with_long_lists" } else { "unit_files_with_short_lists" }); }
     prev = pats.clone();
     out.nontrivial(hash64(&pats));
     if out.wants_sample() && rng.chance(1, 2000) {
@@ -432,6 +475,16 @@ pub fn replay(rep: &Value, out: &mut ShardOut) -> bool {
   let unit = crate::udev_utils::verif::build_service_text(&refs);
   out.notes.insert("exec_start".to_string(), json!(find_exec_start(&unit).unwrap_or_default()));
   out.notes.insert("decoded".to_string(), json!(match decode(&unit) { Decoded::Argv(a) => format!("{:?}", show(&a)), Decoded::Invalid(w) => format!("invalid: {}", w) }));
+  if rep.get("on_disk").and_then(|b| b.as_bool()).unwrap_or(false) {
+    // a long list first, so that the file already holds more than this case writes
+    if crate::roundtrip_mon::private_etc().is_ok() && std::fs::create_dir_all("/etc/systemd/system").is_ok() {
+      let long: Vec<String> = (0..120).map(|i| format!("pattern-number-{}-of-a-long-list", i)).collect();
+      let mut scratch = ShardOut::new();
+      check_unit_file(&mut scratch, &long, "replay");
+      check_unit_file(out, &pats, "replay");
+    }
+    else { out.notes.insert("inconclusive".to_string(), json!("no private /etc")); }
+  }
   test(out, pats, "replay");
   true
 }
